@@ -1,13 +1,38 @@
 """C05 - The study terminates and its final verdict and exit code are truthful
 
 Execution-graph correspondence (real ExecutionGraph driven by the scripted
-scheduler vs Model/Exec.lean, state compared after every operation) and the
-C05 monitor of harness/execsim.py evaluated on the real traces."""
+scheduler vs Model/Exec.lean, state compared after every operation), the C05
+monitor of harness/execsim.py evaluated on the real traces, and conductor-level
+runs (real Conductor.monitor_study, cancel requests through the lock file,
+studies made of locally executed steps only)."""
+import os
+import shutil
+
+import condsim
 import execprop
+from corr import Case, compare, judge, account
 
 LEVEL = "proof"
-RULE = execprop.RULE
+RULE = execprop.RULE + "; plus conductor-level runs with cancel requests, 40% of them with local steps only"
 
 
 def run(ctx, escalated=False):
-    execprop.run(ctx, "C05", escalated)
+    quick = ctx.tier == "quick" and not escalated
+    cases = execprop.run(ctx, "C05", escalated, finish=False)
+    extra = []
+    for k in range(60 if quick else 2000):
+        r = condsim.run(ctx, ctx.rng, k, cancel_prob=0.25, local_prob=0.4)
+        if r is None:
+            continue
+        extra.append(Case({"kind": "conductor", "spec": r["spec"], "polls": r["polls"], "returned": r["ret"],
+                           "cancel_at_poll": r["cancelled"]}, [], [], r["mon"]["C05"][:3],
+                          r["cancelled"] is not None or r["nontrivial"]))
+        ctx.count("conductor:" + r["ret"])
+        if k % 30 == 29:
+            shutil.rmtree(os.path.join(ctx.scratch, "cond"), ignore_errors=True)
+    import scripted as S
+    S.install()
+    cases = cases + extra
+    diffs = compare([c for c in cases if c.lines])
+    account(ctx, extra)
+    judge(ctx, cases, diffs, "execution-graph+conductor", shrink=execprop.shrink_factory(ctx, "C05"))
